@@ -92,7 +92,8 @@ class Recorder:
     def predict(self, X):
         import numpy
         X = numpy.asarray(X)
-        return (X[:, 0] * self.a + self.b + self.k_).astype(float)
+        # non-integer (dyadic, exact in float32 and float64) predictions, whatever the dtype of the batch
+        return X[:, 0].astype(float) * self.a + self.b + self.k_ + 0.25
 
 
 class RandintRecorder:
@@ -262,6 +263,20 @@ def _one_config(n, alpha, ne, weights, seed, d=2):
                 break
     # aggregation
     Xq = numpy.array([[float(i), 0.0] for i in range(-2, 3)])[:, :d]
+    # query batches of every common dtype: the individual predictions must come back untouched
+    for dt in (numpy.int64, numpy.float32, numpy.int32):
+        Xd = Xq.astype(dt)
+        pa_d = model.predict_all(Xd)
+        ind_d = numpy.array([e.predict(Xd) for e in model.estimators_]).T
+        if pa_d.shape != ind_d.shape or not (pa_d == ind_d).all():
+            bad.append(("predict-all-dtype", "predict_all is not the individual predictions for a %s query batch" % dt.__name__,
+                        pa_d.tolist(), ind_d.tolist()))
+            break
+        pm = model.predict(Xd)
+        if not numpy.allclose(pm, ind_d.mean(axis=1), rtol=1e-12, atol=1e-12):
+            bad.append(("predict-mean-dtype", "predict is not the mean of the individual predictions for a %s query batch"
+                        % dt.__name__, pm.tolist(), ind_d.mean(axis=1).tolist()))
+            break
     pa = model.predict_all(Xq)
     ind = numpy.array([e.predict(Xq) for e in model.estimators_]).T
     if pa.shape != ind.shape or not (pa == ind).all():
